@@ -78,7 +78,7 @@ def explicit_config_file_must_be_a_file(prog, rep, R):
     get_config_object the explicit path is therefore tested with Path::is_file() and the negative outcome ends in Err, before the
     path reaches the builder."""
     from panic import dominating_conditions
-    g = prog.body(PC + "get_config_object")
+    g = prog.inlined(PC + "get_config_object", keep=("get_config_object_from_file", "find_config_file", "current_dir", "is_file"))
     if not rep.check(g is not None, R, "anchor:get_config_object", "get_config_object not found"):
         return
     gf = g.calls_to(PC + "get_config_object_from_file")
@@ -86,17 +86,30 @@ def explicit_config_file_must_be_a_file(prog, rep, R):
     ok = len(gf) == 1 and len(isf) >= 1
     if ok:
         # the test is applied to the explicit file ...
-        explicit = any(any(x[0] == "param" and "config_file" in str(x[2]) for x in Origins(g).of_operand(c.args[0])) for c in isf)
-        # ... and `not a file` cannot reach the builder call
-        blocked = False
-        for c in isf:
+        explicit = any(any(x[0] == "param" and "config_file" in str(x[2]) for x in Origins(g).of_operand(c.args[0])) or "arg1.config_file" in canon(g, c.args[0]) for c in isf)
+        # ... and `not a file` cannot reach the builder call: path by path (the test may sit in a helper whose Err comes back through `?`)
+        blocked = None
+        try:
+            tb = Table(prog, g, inline=1, opaque=("get_config_object_from_file", "find_config_file", "is_file", "current_dir"))
+            blocked = True
+            seen_neg = 0
+            for (cons, res), calls in zip(tb.rows, tb.calls):
+                neg = any(c[0] == "cond" and c[1].startswith("is_file(") and c[2] == 0 for c in cons)
+                if neg:
+                    seen_neg += 1
+                    if any(nm.endswith("get_config_object_from_file") for nm, _ in calls):
+                        blocked = False
+            blocked = blocked and seen_neg >= 1
+        except TooComplex:
+            blocked = None
+        for c in (isf if blocked is None else []):
             tgt = c.t.get("target")
             t = g.blocks[tgt]["term"] if tgt is not None else {}
             if t.get("k") == "switch":
                 false_tgt = [tb for v, tb in t["targets"] if v == 0]
                 if false_tgt and gf[0].bb not in g.reach_from(false_tgt[0], include_start=True):
                     blocked = True
-        ok = explicit and blocked
+        ok = explicit and bool(blocked)
     rep.check(ok, R, "explicit-config-file-is_file", "get_config_object hands the --config-file path to the `config` crate without requiring Path::is_file(): a path that does not exist is then "
               "resolved by appending `.toml` / other extensions (`--config-file alt` reads `alt.toml`)", where="%s:%d" % (g.file, g.line),
               instance={"is_file_tests": len(isf), "negative_outcome": "Err before the builder"})
@@ -110,9 +123,10 @@ def check_c19(prog, rep, tier, cfg):
     R = "C19.a"
     b = prog.body(PC + "get_config_object_from_file")
     if rep.check(b is not None, R, "anchor:get_config_object_from_file", "get_config_object_from_file not found"):
-        cc = [c.callee for c in b.calls() if (c.callee or "").startswith("config::")]
-        rep.check(sorted(cc) == sorted(["config::config::Config::builder", "config::file::File::format", "config::builder::ConfigBuilder::add_source", "config::builder::ConfigBuilder::build",
-                                         "config::builder::ConfigBuilder::set_override", "config::config::Config::try_deserialize"]), R, "builder-calls",
+        fam_b = [b] + [x for x in prog.bodies.values() if x.npath.startswith(b.npath + "::")]
+        cc = [c.callee for x in fam_b for c in x.calls() if (c.callee or "").startswith("config::")]
+        rep.check(set(cc) == {"config::config::Config::builder", "config::file::File::format", "config::builder::ConfigBuilder::add_source", "config::builder::ConfigBuilder::build",
+                              "config::builder::ConfigBuilder::set_override", "config::config::Config::try_deserialize"}, R, "builder-calls",
                   "configuration is assembled with %s (reviewed: builder, File::format(Toml), add_source, set_override, build, try_deserialize — no set_default, no required(false))" % sorted(cc),
                   instance={"calls": sorted(x.split("::")[-1] for x in cc)})
         ads = b.calls_to("config::builder::ConfigBuilder::add_source")
@@ -123,7 +137,47 @@ def check_c19(prog, rep, tier, cfg):
             ok = len(ff) == 1 and any(v == "Toml" for a, v in enum_variants_mentioned(b))
             rep.check(ok, R, "file-format-toml", "the configuration file is not read as TOML")
         so = b.calls_to("config::builder::ConfigBuilder::set_override")
-        if rep.check(len(so) == 1, R, "one-set_override", "expected exactly one set_override call site (inside the loop over -C options)"):
+        so_cl = [(x, c) for x in fam_b if x is not b for c in x.calls_to("config::builder::ConfigBuilder::set_override")]
+        if not so and len(so_cl) == 1:
+            # iterator form: overrides.iter().filter_map(Set -> Some((key, val)), Help -> None).try_fold(builder, |b, (k, v)| b.set_override(k, v))?
+            cl, sc = so_cl[0]
+            tf = [c for c in b.calls() if (c.callee or "").split("::")[-1] in ("try_fold", "try_for_each") and any(a["k"] in ("copy", "move") and not a["place"]["p"] and norm(b.locals[a["place"]["l"]].get("closure") or "") == cl.npath for a in c.args)]
+            ok_it = len(tf) == 1
+            why = "set_override is not the body of one try_fold / try_for_each over the overrides"
+            if ok_it:
+                chain = Origins(b, extra_identity={"core::slice::iter", "core::iter::traits::iterator::Iterator::filter_map", "core::iter::traits::iterator::Iterator::map",
+                                                   "core::iter::traits::collect::IntoIterator::into_iter", "core::ops::deref::Deref::deref"}).of_operand(tf[0].args[0])
+                ok_it = bool(chain) and all(x[0] == "param" and "overrides" in str(x[2]) for x in chain)
+                why = "the folded iterator is not self.overrides, element-wise (%s)" % sorted(map(str, chain))
+            if ok_it:
+                # every Set item is handed on by the selecting closure (a filter_map that drops a Set item would skip an override)
+                fms = [c for c in b.calls() if (c.callee or "").endswith("Iterator::filter_map") or (c.callee or "").endswith("Iterator::filter")]
+                for fm in fms:
+                    cn = b.locals[fm.args[1]["place"]["l"]].get("closure") if fm.args[1]["k"] in ("copy", "move") else None
+                    fb_ = prog.body(norm(cn)) if cn else None
+                    good = False
+                    if fb_ is not None and not fb_.loops():
+                        tbl = Table(prog, fb_)
+                        rows = [(cons, render(res)) for cons, res in tbl.rows]
+                        set_rows = [r for cons, r in rows if any(c[0] == "is" and c[2] == "Set" for c in cons)]
+                        good = bool(set_rows) and all(r.startswith("Some(") or r == "True" for r in set_rows)
+                    ok_it &= good
+                    why = "the closure selecting the items to apply can drop a ConfigOverride::Set item"
+            if ok_it:
+                ok_it = question_propagated(b, tf[0])
+                why = "the result of the fold over the overrides is not `?`-propagated"
+            if ok_it:
+                # the closure applies its item and nothing else decides
+                ok_it = not cl.loops() and len([c for c in cl.calls() if (c.callee or "").startswith("config::")]) == 1 and cl.dominates(0, sc.bb) and \
+                    not any(cl.blocks[bb]["term"]["k"] == "switch" for bb in cl.reachable() if cl.dominates(bb, sc.bb) and bb != sc.bb)
+                why = "set_override is conditional inside the fold's closure"
+            rep.check(ok_it, R, "every-Set-item-is-applied", "a `-C key=value` item can be skipped: %s (an override that is not layered lets the file's value win)" % why,
+                      where=sc.where(), instance={"form": "try_fold over overrides.iter().filter_map(Set)"})
+            so = []          # order checks below use the fold as the override step
+            so_step = tf[:1]
+        else:
+            so_step = so
+        if so and rep.check(len(so) == 1, R, "one-set_override", "expected exactly one set_override call site (inside the loop over -C options)"):
             facts = dominating_variant_facts(prog, b, so[0].bb)
             rep.check(any(f[2] == ("Set",) for f in facts), R, "override-per-Set-item", "set_override is not applied to each ConfigOverride::Set item")
             a = [canon(b, x) for x in so[0].args[1:]]
@@ -159,7 +213,9 @@ def check_c19(prog, rep, tier, cfg):
         # order: file source before overrides before build
         bd = b.calls_to("config::builder::ConfigBuilder::build")
         td = b.calls_to("config::config::Config::try_deserialize")
-        if ads and so and bd and td:
+        rep.check(bool(so_step), R, "override-step", "no step that applies the -C overrides was found in get_config_object_from_file")
+        if ads and so_step and bd and td:
+            so = so_step
             ok = b.can_reach_avoiding(ads[0].bb, {so[0].bb}, set()) and not b.can_reach_avoiding(so[0].bb, {ads[0].bb}, set()) and b.dominates(bd[0].bb, td[0].bb) \
                 and not b.can_reach_avoiding(bd[0].bb, {so[0].bb}, set())
             rep.check(ok, R, "ORDER:file<overrides<build<deserialize", "file source / overrides / build / try_deserialize are out of order")
@@ -170,7 +226,7 @@ def check_c19(prog, rep, tier, cfg):
     rep.check(not sd, R, "no-set_default", "ConfigBuilder::set_default is used (a default layer would sit *below* the file, changing precedence): %s" % [short(c.body.npath) for c in sd], instance={"set_default_calls": len(sd)})
     rq = [c for c in prog.who_calls("config::file::File::required") if c.body.crate.startswith("pasfmt")]
     rep.check(not rq, R, "no-required(false)", "File::required is used: a missing --config-file would be silently ignored", instance={"required_calls": len(rq)})
-    g = prog.body(PC + "get_config_object")
+    g = prog.inlined(PC + "get_config_object", keep=("get_config_object_from_file", "find_config_file", "current_dir", "is_file"))
     if rep.check(g is not None, R, "anchor:get_config_object", "get_config_object not found"):
         fc = g.calls_to(PC + "find_config_file")
         gf = g.calls_to(PC + "get_config_object_from_file")
@@ -181,6 +237,30 @@ def check_c19(prog, rep, tier, cfg):
             ok &= "current_dir" in canon(g, fc[0].args[0])
             o = origins(g, extra={"core::option::Option::map"}).of_operand(gf[0].args[1])
             ok &= any(x[0] == "call" and x[1] == fc[0].bb for x in o) and any(x[0] == "agg" and x[3].endswith("Option::Some") for x in o)
+        if not ok:
+            # path by path (the choice may sit in a helper): with --config-file the builder gets that path and no search is made; without it
+            # the builder gets what find_config_file(current_dir()?) returned
+            try:
+                tbl = Table(prog, g, inline=1, opaque=("get_config_object_from_file", "find_config_file", "is_file", "current_dir"))
+                seen_some = seen_none = 0
+                ok = True
+                for (cons, res), calls in zip(tbl.rows, tbl.calls):
+                    gfc = [a for nm, a in calls if nm.endswith("get_config_object_from_file")]
+                    if not gfc:
+                        continue
+                    arg = gfc[0][1] if len(gfc[0]) > 1 else ""
+                    names = [nm.split("::")[-1] for nm, _ in calls]
+                    if any(c[0] == "is" and c[1].endswith("config_file") and c[2] == "Some" for c in cons):
+                        seen_some += 1
+                        ok &= "arg1.config_file@Some.0" in arg and "find_config_file" not in names
+                    elif any(c[0] == "is" and c[1].endswith("config_file") and c[2] == "None" for c in cons):
+                        seen_none += 1
+                        ok &= "find_config_file(" in arg and "current_dir" in names
+                    else:
+                        ok = False
+                ok = ok and seen_some >= 1 and seen_none >= 1
+            except TooComplex:
+                ok = False
         rep.check(ok, R, "explicit-file-else-ancestor-search", "get_config_object no longer uses --config-file as is and otherwise searches from the current directory",
                   instance={"explicit": "Some(config_file)", "otherwise": "find_config_file(current_dir()?)"})
     ff = prog.body(PC + "find_config_file")
